@@ -162,9 +162,16 @@ Definition lim_remove (k : lim_addr) (t : lim_table) : lim_table :=
 
 Definition lim_upsert (k : lim_addr) (b : bucket) (t : lim_table) : lim_table := (k, b) :: lim_remove k t.
 
-(* gc at time now: lastSeen.Before(now - entryTtl) -> delete *)
+(* gc at time now: an entry is deleted when it is idle (lastSeen.Before(now - entryTtl)) AND its bucket has refilled
+   completely at now (l.TokensAt(now) >= burst): forgetting such an entry loses nothing, the bucket created at the
+   subnet's next arrival is full as well.  (Before the K3 repair idleness alone decided, and with burst > 60*rate a
+   subnet got a second burst after a minute of silence.) *)
 Definition lim_expired (now : Z) (b : bucket) : bool := b_seen b <? now - entry_ttl.
-Definition lim_gc (now : Z) (t : lim_table) : lim_table := filter (fun e => negb (lim_expired now (snd e))) t.
+Definition lim_full (o : opts) (now : Z) (b : bucket) : bool :=
+  o_burst o * SCALE <=? lim_advance (o_limit o) (o_burst o) b now.
+Definition lim_collect (o : opts) (now : Z) (b : bucket) : bool := lim_expired now b && lim_full o now b.
+Definition lim_gc (o : opts) (now : Z) (t : lim_table) : lim_table :=
+  filter (fun e => negb (lim_collect o now (snd e))) t.
 
 (* ------------------------------------------------------------------ histories *)
 
@@ -183,7 +190,7 @@ Definition lim_step (o : opts) (t : lim_table) (e : lev) : lim_table * option bo
       let k := mask_addr o a in
       let r := allow_bucket (o_limit o) (o_burst o) (lim_bucket_of o k t now) now n in
       (lim_upsert k (snd r) t, Some (fst r))
-  | EvGc now => (lim_gc now t, None)
+  | EvGc now => (lim_gc o now t, None)
   end.
 
 (* margin of an arrival in the current state (for the comparison's epsilon band); None for gc and for n > burst *)
